@@ -238,6 +238,16 @@ impl Property for C05 {
                 let got = ls.winding_order();
                 obs.expect(got == want, "winding_order|wrong", || format!("got {:?} want {:?}; ring {:?} xf={:?}", got, want, open, c.xf));
                 obs.expect(ls.is_ccw() == (exact > 0) && ls.is_cw() == (exact < 0), "is_cw/is_ccw|inconsistent", || format!("ring {:?} xf={:?}", open, c.xf));
+                // the same ring as i64, moved far from the origin (2^54 .. 2^61: beyond what an f64 can hold exactly, while every
+                // coordinate DIFFERENCE is small, so the integer kernel's products are nowhere near overflow)
+                {
+                    let sh = 1i64 << (54 + (c.rot as u32 + c.dup as u32) % 8);
+                    let (sx, sy) = if c.dup & 32 != 0 { (sh, -sh) } else { (-sh, sh + 3) };
+                    let li: LineString<i64> = LineString::new(open.iter().map(|p| { let q = c.xf.d4(*p); geo::Coord { x: q.0 + sx, y: q.1 + sy } }).collect());
+                    let got_i = li.winding_order();
+                    obs.expect(got_i == want, "winding_order<i64>|wrong", || format!("got {:?} want {:?}; ring {:?} shifted by ({sx}, {sy}) d4={}", got_i, want, open, c.xf.d4));
+                    obs.expect(li.is_ccw() == (exact > 0) && li.is_cw() == (exact < 0), "is_cw/is_ccw<i64>|inconsistent", || format!("ring {:?} shifted by ({sx}, {sy})", open));
+                }
                 // the rest of the Winding trait: the iterators and the re-winding methods give the same coordinates in the
                 // promised direction (forwards when the ring already has it, backwards otherwise)
                 if let Some(w) = want {
